@@ -584,6 +584,7 @@ def snapshot(Q):
     if hasattr(dd, 'statedigraph'):
         s['digraph'] = sorted(dd.statedigraph.edges())
         s['digraph_nodes'] = sorted(dd.statedigraph.nodes())
+        s['dd'] = 1 if dd.detect_deadlock() else 0
     return s
 
 
